@@ -1168,7 +1168,11 @@ func (w *_listpairsFieldListAssemblerRepr) AssembleValue() datamodel.NodeAssembl
 		return w.parent.AssembleKey()
 	case 2:
 		asm := w.parent.AssembleValue()
-		return assemblerRepr(asm.(*_assembler))
+		if asm, ok := asm.(*_assembler); ok {
+			return assemblerRepr(asm)
+		}
+		// Not a field assembler: an assembler reporting an error, e.g. for an unknown field name.
+		return asm
 	default:
 		return _errorAssembler{fmt.Errorf("bindnode: too many values in listpairs field")}
 	}
